@@ -64,24 +64,21 @@ func (pq *pqList) Insert(id interface{}, expireAt time.Time) {
 	pq.insert(id, expireAt)
 }
 func (pq *pqList) insert(id interface{}, expireAt time.Time) {
-	pq.mtx.RLock()
+	// the bucket must not be swept between the lookup and the append
+	pq.mtx.Lock()
+	defer pq.mtx.Unlock()
 	deadline := expireAt.Round(time.Second)
 	elt, ok := pq.buckets[deadline]
-	pq.mtx.RUnlock()
 	if !ok {
-		pq.mtx.Lock()
-		defer pq.mtx.Unlock()
-		if elt, ok = pq.buckets[deadline]; !ok {
-			elt = &bucket{
-				data: []item{
-					{value: id, deadline: expireAt},
-				},
-				deadline: deadline,
-			}
-			pq.buckets[deadline] = elt
-			heap.Push(&pq.pq, elt)
-			return
+		elt = &bucket{
+			data: []item{
+				{value: id, deadline: expireAt},
+			},
+			deadline: deadline,
 		}
+		pq.buckets[deadline] = elt
+		heap.Push(&pq.pq, elt)
+		return
 	}
 	elt.put(id, expireAt)
 }
